@@ -14,12 +14,17 @@ package mustache
 //@   ensures[C10,C19] variables != nil && name != "" && haskey(variables, name) ==> result != nil && deref(result) == mapval(variables, name)
 //@   ensures[C10,C18] variables != nil && name != "" ==> (forall k string :: haskey(variables, k) && lower(k) == lower(name) ==> result != nil)
 //@   ensures[C10,C18] result != nil ==> (exists k string :: haskey(variables, k) && lower(k) == lower(name) && deref(result) == mapval(variables, k))
+// "evaluating again with equal inputs returns an equal result": without an exact key the result is the value of the least of the
+// matching keys - a function of the map and the name, not of the order in which the map happens to be iterated
+//@   ensures[C19] result != nil && !haskey(variables, name) ==> (forall k string :: haskey(variables, k) && lower(k) == lower(name) &&
+//@       (forall k2 string :: haskey(variables, k2) && lower(k2) == lower(name) ==> !(k2 < k)) ==> deref(result) == mapval(variables, k))
 //@   assigns nothing
 //@   nopanic
 //@   loop 0
 //@     invariant variables == old(variables) && variables != nil && name == lower(old(name))
 //@     invariant forall k string :: visited(variables, k) && lower(k) == name ==> result != nil
 //@     invariant result != nil ==> haskey(variables, resultName) && lower(resultName) == name && deref(result) == mapval(variables, resultName)
+//@     invariant result != nil ==> (forall k string :: visited(variables, k) && lower(k) == name ==> !(k < resultName))
 // "present and non-empty"
 //@ func (c *MustacheTemplate) isDefinedVariable
 //@   requires c != nil
